@@ -924,6 +924,40 @@ def run_selftest(prop_id: str, prog: Program, jobs: Optional[int] = None) -> Dic
 
 # rules that look for a forbidden construct whose count on a healthy tree is zero: without a positive example
 # such a rule would pass vacuously forever if its pattern stopped matching
+# ---- seventh round: clauses derived from the seventh batch of seeded changes
+VARIANTS += [
+    M("layout-max-of-sizes", LAYOUT, 'max(left_info["size"].h, right_info["size"].h) + trunk_height', 'max(left_info["size"], right_info["size"]).h + trunk_height', "GEOM-NO-ORDER", "SUBTREE-BOX"),
+    T("twin-layout-max-height-sorted", LAYOUT, 'max(left_info["size"].h, right_info["size"].h) + trunk_height', 'sorted((left_info["size"].h, right_info["size"].h))[-1] + trunk_height'),
+    M("edge-event-intenum", MODEL, "class EdgeEvent(Enum):", "class EdgeEvent(int, Enum):", "KIND-ENUM-BASE"),
+    Variant("node-event-intenum", MODEL, [("from enum import Enum, auto", "from enum import Enum, IntEnum, auto"), ("class NodeEvent(Enum):", "class NodeEvent(IntEnum):")], ("KIND-ENUM-BASE",)),
+    M("toposort-all-graph-rebound", TOPO, "    starts: Set[Node] = set(graph)\n    indeg: Dict[Node, int] = {node: 0 for node in graph}\n\n    for succs in graph.values():\n        for succ in succs:\n            starts.discard(succ)\n            indeg[succ] += 1\n\n    results = _toposort_all_bt(", "    graph = {node: {s for s in succs if s != node} for node, succs in graph.items()}\n    starts: Set[Node] = set(graph)\n    indeg: Dict[Node, int] = {node: 0 for node in graph}\n\n    for succs in graph.values():\n        for succ in succs:\n            starts.discard(succ)\n            indeg[succ] += 1\n\n    results = _toposort_all_bt(", "GRAPH-AS-GIVEN"),
+    M("costrec-single-species-shortcut", MODEL, "        left_node, right_node = node.children\n        left_cost = self._cost_rec(left_node)", "        if len({rec[leaf] for leaf in node.iter_leaves()}) == 1:\n            return costs[NodeEvent.DUPLICATION] * (len(node) - 1)\n\n        left_node, right_node = node.children\n        left_cost = self._cost_rec(left_node)", "EVAL-NO-SHORTCUT"),
+    T("twin-costrec-leaf-by-children", MODEL, "        if event == NodeEvent.LEAF:\n            return 0\n\n        left_node, right_node = node.children\n        left_cost = self._cost_rec(left_node)", "        if event == NodeEvent.LEAF or not node.children:\n            return 0\n\n        left_node, right_node = node.children\n        left_cost = self._cost_rec(left_node)"),
+    M("update-tag-test-mixed", DP, "                if info and (is_all or (is_any and not self._infos)):", "                if info is not None and (is_all or (is_any and not self._infos)):", "TAG-TEST-CONSISTENT"),
+    Variant("twin-update-tag-test-not-none-both", DP, [
+        ("                if info and (is_all or (is_any and not self._infos)):", "                if info is not None and (is_all or (is_any and not self._infos)):"),
+        ("                if info and (is_all or is_any):", "                if info is not None and (is_all or is_any):"),
+    ], (), twin=True, note="both branches use the same notion of a tagged candidate"),
+    M("segdist-parent-trimmed", SUBS, "    for _ in range(parent.bit_length()):\n        bit_child = child & 1", "    if not edges:\n        parent &= (1 << child.bit_length()) - 1\n\n    for _ in range(parent.bit_length()):\n        bit_child = child & 1", "SEGMENT-MACHINE"),
+    M("unite-links-element", DSET, "            self.parent[rep_first] = rep_second", "            self.parent[first] = rep_second", "GROUPS-PAIRING"),
+    Variant("twin-unite-roots-renamed", DSET, [("rep_first", "root_a"), ("rep_second", "root_b")], (), twin=True, every=True),
+    M("from-dict-relabels", MODEL, "        return cls(**cls._from_dict(data))\n\n    def binarize", "        result = cls(**cls._from_dict(data))\n        result.label_internal()\n        return result\n\n    def binarize", "FIELD-SOURCE"),
+    T("twin-from-dict-local", MODEL, "        return cls(**cls._from_dict(data))\n\n    def binarize", "        result = cls(**cls._from_dict(data))\n        return result\n\n    def binarize"),
+    M("spfs-root-orders-filtered", SPFS, "            root_orderings = toposort_all(prec_graph)", "            root_orderings = toposort_all({gene: succs for gene, succs in prec_graph.items() if succs})", "ROOT-ORDER-SOURCE"),
+    T("twin-spfs-root-orders-inline", SPFS, "            root_orderings = toposort_all(prec_graph)", "            root_orderings = toposort_all(_make_prec_graph(leaf_syntenies))"),
+    M("layout-skip-species-above-root", LAYOUT, "        layout_state[root_species] = state\n\n        for root_gene in gene_tree.traverse(\"postorder\"):", "        layout_state[root_species] = state\n\n        if species_lca.is_strict_ancestor_of(root_species, mapping[gene_tree]):\n            continue\n\n        for root_gene in gene_tree.traverse(\"postorder\"):", "PLACED-IN-SPECIES"),
+    M("lca-node-in-tree", REC, "            species = rec_input.leaf_object_species[node]\n", "            species = rec_input.leaf_object_species[node]\n            if species not in rec_input.species_lca.tree:\n                raise ValueError(species)\n", "TREE-ITER-EXPLICIT"),
+    T("twin-label-internal-name-in-tree", MODEL, 'f"S{next_species}" in self.species_lca.tree', '"S" + str(next_species) in self.species_lca.tree'),
+    M("spfs-decode-every-root-content", SPFS, "                            subseq_complete(root_ordering),\n                            srec_input_bin,", "                            next(iter(table[synteny_tree][root_species]), 0),\n                            srec_input_bin,", "ROOT-CONTENT"),
+    Variant("twin-spfs-root-content-local", SPFS, [
+        ("                results.update(\n                    *map(\n                        lambda output: Candidate(output.cost(), output),\n                        _decode_spfs_table(", "                full = subseq_complete(root_ordering)\n                results.update(\n                    *map(\n                        lambda output: Candidate(output.cost(), output),\n                        _decode_spfs_table("),
+        ("                            subseq_complete(root_ordering),\n                            srec_input_bin,", "                            full,\n                            srec_input_bin,"),
+    ], (), twin=True),
+    M("uspfs-decode-root-gain", USPFS, "                        SyntenyAssignment.LCA,\n                        lca_sets[synteny_tree],", "                        SyntenyAssignment.GAIN,\n                        lca_sets[synteny_tree],", "ROOT-CONTENT"),
+    M("aggregate-literal-policy", REC, "    min_lts = table.entry()", "    min_lts = Entry(MergePolicy.MIN, RetentionPolicy.ANY)", "POLICY-FLOW"),
+    M("update-returns-in-loop", DP, "                self._value = value\n\n    update.__doc__", "                self._value = value\n                return\n\n    update.__doc__", "UPDATE-ALL-CANDIDATES"),
+]
+
 CANARY_RULES = (
     "SOLVER-STATELESS", "MEMO-KEY", "ITERATOR-REUSE", "NO-PRUNED-TRAVERSAL", "COST-TRUTH", "FIELD-COPY-COMPLETE",
     "EQ-BY-FIELDS", "READONLY-INPUT", "READONLY-GRAPH", "READONLY-DECODE", "IDENTITY-KEYS", "EMPTY-RESULT-GUARD",
